@@ -275,6 +275,6 @@ theorem startRecv_ok (fl cfg s t f h n) :
           · rename_i r hr
             have := recvStep_ok (by rw [hr] : recvStep fl cfg s t f _ n [] = some (r.1, r.2))
             exact this.retarget _ rfl rfl rfl rfl
-          · exact StepOk.ofSame id (SameAcct.refl s) rfl rfl rfl rfl
+          · exact StepOk.ofSame (mbFlush_ok fl s).1 (mbFlush_ok fl s).2 rfl rfl rfl rfl
 
 end Fv.Chan
